@@ -80,6 +80,16 @@ func (f *finderEval) str(v ssa.Value, res func(ssa.Value) ssa.Value, depth int) 
 			}
 		}
 	case *ssa.Extract:
+		// _, after, found := strings.Cut(h, K): where found, after is h from just behind the first K
+		if call, ok := x.Tuple.(*ssa.Call); ok && x.Index == 1 {
+			if cal := call.Call.StaticCallee(); cal != nil && cal.Pkg != nil && cal.Pkg.Pkg.Path() == "strings" && cal.Name() == "Cut" {
+				h, n := f.str(call.Call.Args[0], res, depth+1), f.str(call.Call.Args[1], res, depth+1)
+				if h.kind == ssSub && n.kind == ssKey {
+					idx := prover.Atom("IDX(" + h.String() + "," + n.key + ")")
+					return sstr{kind: ssSub, lo: h.lo.Add(idx, 1).Add(prover.Atom("LENK("+n.key+")"), 1), hi: h.hi}
+				}
+			}
+		}
 		// before, _, _ := strings.Cut(h, sep): h up to the first sep, or all of h when there is none
 		if call, ok := x.Tuple.(*ssa.Call); ok && x.Index == 0 {
 			if cal := call.Call.StaticCallee(); cal != nil && cal.Pkg != nil && cal.Pkg.Pkg.Path() == "strings" && cal.Name() == "Cut" {
@@ -175,6 +185,35 @@ func (f *finderEval) num(v ssa.Value, res func(ssa.Value) ssa.Value, depth int) 
 	return prover.Lin{}, false
 }
 
+// cutFoundTest: cond is the `found` result of strings.Cut(h, K) (possibly negated): the search atom it speaks of and
+// whether the condition being true means "found".
+func (f *finderEval) cutFoundTest(cond ssa.Value, res func(ssa.Value) ssa.Value) (atom string, positive, ok bool) {
+	positive = true
+	if u, isU := cond.(*ssa.UnOp); isU && u.Op == token.NOT {
+		cond, positive = u.X, false
+	}
+	ex, isE := res(cond).(*ssa.Extract)
+	if !isE {
+		ex, isE = cond.(*ssa.Extract)
+	}
+	if !isE || ex.Index != 2 {
+		return "", false, false
+	}
+	call, isC := ex.Tuple.(*ssa.Call)
+	if !isC {
+		return "", false, false
+	}
+	cal := call.Call.StaticCallee()
+	if cal == nil || cal.Pkg == nil || cal.Pkg.Pkg.Path() != "strings" || cal.Name() != "Cut" {
+		return "", false, false
+	}
+	h, n := f.str(call.Call.Args[0], res, 0), f.str(call.Call.Args[1], res, 0)
+	if h.kind != ssSub || n.kind != ssKey {
+		return "", false, false
+	}
+	return "IDX(" + h.String() + "," + n.key + ")", positive, true
+}
+
 type relProp struct {
 	l   prover.Lin
 	rel string // GT GE EQ NE : l rel 0
@@ -210,6 +249,12 @@ func finderSemantics(c *core.Ctx, rel, name string, truncates bool) {
 		out := map[string]bool{}
 		for _, e := range w.Events() {
 			if e.Kind != paths.EvBranch {
+				continue
+			}
+			if atom, positive, isCut := fe.cutFoundTest(e.Cond, e.Resolve); isCut {
+				if positive == e.Taken {
+					out[atom] = true
+				}
 				continue
 			}
 			bo, ok := e.Cond.(*ssa.BinOp)
@@ -415,6 +460,10 @@ func finderSemantics(c *core.Ctx, rel, name string, truncates bool) {
 		var tests []idxTest
 		for _, e := range p.Events {
 			if e.Kind != paths.EvBranch {
+				continue
+			}
+			if atom, positive, isCut := fe.cutFoundTest(e.Cond, e.Resolve); isCut {
+				tests = append(tests, idxTest{atom, positive == e.Taken})
 				continue
 			}
 			bo, ok := e.Cond.(*ssa.BinOp)
